@@ -33,7 +33,7 @@ Ltac sinc_red := repeat match goal with |- context [sinc_np (sinc_arg ?k ?d)] =>
         | rewrite (sinc_np_neq (sinc_arg k d)) by (unfold sinc_arg; interval) ] end.
 Ltac model_red := rewrite ?img_list_polar;
   cbv beta iota zeta delta [sumC img_polar term_polar amp theta form boxform map2 prodR kdot modre modul_eff wfac
-  shape vsize tol timed modul phase weight sF sk st Cmult Cplus RtoC fst snd resolve_cfg resolve opts_at next_opts
+  shape vsize tol timed modul phase weight sF sk st Cmult Cplus RtoC fst snd resolve_cfg resolve
   o_modul o_weight s_modul s_weight kkeepP kdropP mkeepP mdropP keepP]; sinc_red; unfold sinc_arg.
 Ltac tie n := tryif assert_succeeds (solve [model_red; repeat split; interval with (i_prec 90)]) then idtac "TIE-OK" n else idtac "TIE-FAIL" n.
 """
@@ -196,11 +196,9 @@ def entries_of(c, F, k, t):
     return pos, pshape, bshape, full, w, mod
 
 
-def py_entry(c, F, k, t, idx, pops_after=0):
+def py_entry(c, F, k, t, idx):
     """float evaluation of the model formula for one entry; returns (value, keeps) -- masks per entry"""
     pos, pshape, bshape, full, w, mod = entries_of(c, F, k, t)
-    if pops_after and c.get("via") != "system":
-        w, mod = None, None
     b, p = idx[:len(bshape)], idx[len(bshape):]
     Fb = F[b]
     kb = k[tuple(min(i, s - 1) for i, s in zip(b, k.shape[:-2]))]
@@ -263,8 +261,8 @@ def Cl(z):
     return "(%s, %s)" % (R(z.real), R(z.imag))
 
 
-def coq_entry(c, F, k, t, idx, keeps, nacq, pops):
-    """Gallina: img_list keeps (resolve_cfg base (opts_at pops nacq opts) sys) x states, states with F = 0 dropped,
+def coq_entry(c, F, k, t, idx, keeps):
+    """Gallina: img_list keeps (resolve_cfg base opts sys) x states (the same for every acquisition), states with F = 0 dropped,
     plus the list of mask facts"""
     pos, pshape, bshape, full, w, mod = entries_of(c, F, k, t)
     b, p = idx[:len(bshape)], idx[len(bshape):]
@@ -287,7 +285,7 @@ def coq_entry(c, F, k, t, idx, keeps, nacq, pops):
         opts, sysl = "(mkOpts None None)", "(mkSys %s %s)" % (modl, wl)
     else:
         opts, sysl = "(mkOpts %s %s)" % (modl, wl), "(mkSys None None)"
-    cfg = "(resolve_cfg %s (opts_at %s %d %s) %s)" % (base, core.coq_bool(pops), nacq, opts, sysl)
+    cfg = "(resolve_cfg %s %s %s)" % (base, opts, sysl)
     sel = [j for j in range(Fb.shape[-1]) if Fb[j] != 0]
     states = ["mkPS %s [%s] %s" % (Cl(Fb[j]), "; ".join(R(a) for a in kb[j]), R(0 if tb is None else tb[j])) for j in sel]
     xs = "[%s]" % "; ".join(R(a) for a in x)
@@ -418,7 +416,7 @@ def gen_case(rng, stream):
 
 
 # ------------------------------------------------------------------ (a) correspondence
-def correspondence(ctx, pops):
+def correspondence(ctx):
     quick = ctx.tier == "quick"
     budget = 800 if quick else 8000
     streams = ["main"] * 5 + ["mask", "mask", "reduce", "reduce", "int", "repeat", "repeat"]
@@ -460,12 +458,12 @@ def correspondence(ctx, pops):
                 parts, facts, nst = [], [], 0
                 ref = 0j
                 for idx in ents:
-                    term, fs, n = coq_entry(c, F, k, t, idx, keeps0, a, pops)
+                    term, fs, n = coq_entry(c, F, k, t, idx, keeps0)
                     parts.append(term)
                     nst += n
                     if idx == ents[0]:
                         facts = fs
-                    ref += py_entry(c, F, k, t, idx, pops_after=(a > 0 and pops))[0]
+                    ref += py_entry(c, F, k, t, idx)[0]
                 tolv = 1e-9 * (1 + abs(obs))
                 if abs(ref - obs) > tolv:
                     nform += 1
@@ -771,12 +769,14 @@ def run(ctx):
                    {"theorem_or_correspondence": "Model/Imaging.v vs epgpy/utils.py (ast check)", **b}, found_input=False,
                    signature={"source": b["expression"]})
     pops, first, second = pops_present()
-    ctx.notes["finding_switch_pops_options"] = bool(pops)
-    ctx.notes["pops_witness"] = [str(first), str(second)]
+    ctx.notes["repeated_use_witness"] = [str(first), str(second)]
+    if pops:
+        ctx.report("regression: Imaging([0.0], modulation=0.1j, voxel_shape='point') probed twice gives %r then %r (the probe forgets its options)" % (first, second),
+                   {"kind": "repeat", "first": str(first), "second": str(second)}, found_input=True, signature=POPS_SIG)
     import time
     t0 = time.time()
     ctx.notes["t_prove_s"] = round(t0 - ctx.t0, 1)
-    nok, nbad = correspondence(ctx, pops)
+    nok, nbad = correspondence(ctx)
     t1 = time.time()
     oracle(ctx)
     t2 = time.time()
@@ -803,11 +803,10 @@ def replay(ctx, rp):
         vals, F, k, t = run_case(c)
         pos, pshape, bshape, full, w, mod = entries_of(c, F, k, t)
         shape, layout = reduced_layout(c, full)
-        pops = pops_present()[0]
         worst = 0.0
         for a, v in enumerate(vals):
             for oi, ents in layout.items():
-                ref = sum(py_entry(c, F, k, t, idx, pops_after=(a > 0 and pops))[0] for idx in ents)
+                ref = sum(py_entry(c, F, k, t, idx)[0] for idx in ents)
                 worst = max(worst, abs(ref - complex(np.asarray(v)[oi])) / (1 + abs(ref)))
         print("replay: max relative |Imaging - formula| = %.3g" % worst)
         return 1 if worst > 1e-9 else 0
